@@ -154,7 +154,14 @@ var regMethods = []struct{ name, full, path string }{
 // what each backend of the scenario serves (must agree with Registry_Hist.tla)
 var regBackendSvcs = map[string][]string{"local": {"A"}, "c1": {"A"}, "c2": {"A", "B"}, "c3": {"B"}}
 
+// wideQuery makes URL parameter parsing take milliseconds: it sits between the route match and the handler pick
+var wideQuery = strings.Repeat("r=x&", 20000) + "r=x"
+
 func probeOnce(mux *larking.Mux, proto_, full, path string) (out ProbeOut) {
+	return probeOnceQ(mux, proto_, full, path, "")
+}
+
+func probeOnceQ(mux *larking.Mux, proto_, full, path, rawQuery string) (out ProbeOut) {
 	defer func() {
 		if p := recover(); p != nil {
 			out = ProbeOut{K: "panic", By: fmt.Sprint(p)}
@@ -168,7 +175,7 @@ func probeOnce(mux *larking.Mux, proto_, full, path string) (out ProbeOut) {
 		if proto_ == "implicit" {
 			p = full
 		}
-		req.URL = &url.URL{Scheme: "http", Host: "verif.test", Path: p}
+		req.URL = &url.URL{Scheme: "http", Host: "verif.test", Path: p, RawQuery: rawQuery}
 		req.Header.Set("Content-Type", "application/json")
 		req.ContentLength = 2
 		mux.ServeHTTP(w, req)
@@ -432,7 +439,7 @@ func init() { drivers["regstress"] = regStressMain }
 func regStressMain(args []string) error {
 	c := newCommon("regstress")
 	dur := c.fs.Duration("dur", 3*time.Second, "duration of the stress run")
-	readers := c.fs.Int("readers", 8, "reader goroutines")
+	readers := c.fs.Int("readers", 14, "reader goroutines")
 	maxReq := c.fs.Int("maxreq", 40000, "requests kept in the trace")
 	c.fs.Parse(args)
 	tw, err := newTraceWriter(c.out)
@@ -532,7 +539,11 @@ func regStressMain(args []string) error {
 				pr := protos[r.Intn(3)]
 				b0 := atomic.LoadInt32(&busy)
 				s := next()
-				o := probeOnce(w.mux, pr, m.full, m.path)
+				q := ""
+				if pr != "grpc" && r.Intn(2) == 0 {
+					q = wideQuery
+				}
+				o := probeOnceQ(w.mux, pr, m.full, m.path, q)
 				e := next()
 				n++
 				// keep the requests that overlapped an operation, and a sample of the others
